@@ -16,10 +16,14 @@ model and panics in a debug build when it leaves the `isize` range (`addEntry?`,
 All theorems below are about the decoded values `toIsize field`, so they hold with no range
 hypothesis; for fields < 2^63 (every real file) `toIsize` is the identity (`toIsize_small`).
 
-OPEN — carried by K/O only (no theorem): which node a `write_for` call site passes (the printers'
-call sites are exercised end to end, not modelled); original positions are at token starts
-(checked on the real output against the real input files — and violated when an astral character
-precedes the token on its line, known finding `e2e:original-column-counts-code-points`).
+The printers' CALL SITES (which node a `write_for` passes, with which text) are modelled in `Model/PrintMap.lean` and proved
+in `Props/C06Sites.lean` (whole call sequence of the schema and resolver type printers, mapped calls of the two operation
+printers; composed there with `named_segment_text` / `writer_mappings_decode` of this file).
+
+OPEN — carried by K/O only (no theorem): original positions are at token starts IN THE SOURCE TEXT (the AST positions are
+taken as given here; checked on the real output against the real input files — and violated when an astral character precedes
+the token on its line, known finding `e2e:original-column-counts-code-points`); the bodies of the operation printers and the
+resolver printer's plugins (see the OPEN block of `Props/C06Sites.lean`).
 -/
 namespace NitroVerif.SourceMap
 open NitroVerif.SourceMapSpec (b64Val vlqDecode decodeMappings Segment strictSegments strictGo)
